@@ -50,11 +50,11 @@ const (
 )
 
 type coThread struct {
-	id      int
-	resume  chan struct{}
-	yielded chan int
-	inAdd   bool
-	adds    int // script: number of Adds
+	id       int
+	resume   chan struct{}
+	yielded  chan int
+	inAdd    bool
+	adds     int // script: number of Adds
 	lateFree bool
 }
 
